@@ -18,6 +18,12 @@ CLAIMED = {
     'C06': ('apply_formatting events judged by the C06 clauses (frame, gain, bottom/top display, no-op)', '5 C06'),
     'C07': ('remove_formatting/clear_formatting events judged by the C07 clauses', '5 C07'),
     'C08': ('frame, identity and aliasing clauses evaluated on every event with all live objects re-projected', '5 C08'),
+    'C15': ('valid/parsable of every setting text over an 11-symbol alphabet (exhaustive to a stated length) compared by TLC with '
+            'the grammar in spec/SGR.tla (SemOf) / AnsiFuncs.tla; strip/verbatim/conjunction clauses on renderings', '5 C15'),
+    'C18': ('every code list over a 12-code alphabet (exhaustive to a stated length, 3 encodings x add_erroneous) judged by TLC '
+            'against the terminal reading TermEffs/TermRun of spec/SGR.tla; settings_to_dict against TermRun on a prior state', '5 C18'),
+    'C19': ('every string over a 9-symbol alphabet (exhaustive to a stated length, 4 flag combinations) judged by TLC against '
+            'ParseCS/Reinsert of spec/CtrlSeq.tla; every helper against the expected sequence', '5 C19'),
     'C09': ('outcome, clean-failure and consistency clauses on every event; watchdog for termination', '5 C09'),
 }
 REASON_PENDING = 'check not built yet (build in progress)'
